@@ -6,6 +6,7 @@ use crate::gen::*;
 use crate::props::common::*;
 use serde_json::json;
 use wax::query::When;
+use wax::Program;
 
 pub struct C12;
 
@@ -175,6 +176,14 @@ fn gen_rooting_expr(t: &mut Tape) -> Expr {
         },
         _ => {},
     }
+    if t.chance(70) {
+        // shielded by a literal (and a prefix in front of that): `a{/b,c}`, `x/a</b:0,>`
+        e.insert(0, Tok::lit("q"));
+        if t.chance(90) {
+            e.insert(0, Tok::Sep);
+            e.insert(0, Tok::lit("x"));
+        }
+    }
     normalize(&e, true)
 }
 
@@ -206,7 +215,7 @@ impl Property for C12 {
         }
     }
     fn required_counters(&self) -> Vec<&'static str> {
-        vec!["rooting_family_built", "root_always", "root_never", "root_sometimes_any", "always_rooted_matched", "dot_component", "dot_component_nested", "dot_near_miss"]
+        vec!["rooting_family_built", "root_always", "root_never", "root_sometimes_any", "always_rooted_matched", "partition_postfix_judged", "dot_component", "dot_component_nested", "dot_near_miss"]
     }
     fn decode(&self, t: &mut Tape) -> PatCase {
         // one glob, or a combinator of 2-5 (the root verdict of a combinator folds over *all* of
@@ -285,6 +294,19 @@ impl Property for C12 {
                     }
                 }
             },
+        }
+        // (b) also for the glob a partition hands back: it is a glob like any other (`a{/b,c}` is
+        // shielded by its literal; a postfix `{/b,c}` would be rooted only sometimes)
+        if let Pat::G(g) = &pat {
+            if let Ok((_, Some(post))) = guard(|| g.clone().partition()) {
+                st.count("partition_postfix_judged");
+                if let Ok(When::Sometimes) = guard(|| post.has_root()) {
+                    return Err(format!(
+                        "glob {}: its partition postfix `{}` reports has_root() == Sometimes",
+                        text, post
+                    ));
+                }
+            }
         }
         // (a)
         if root == When::Always {
